@@ -5,7 +5,7 @@ WRAPS = ["ares_tvnow", "ares_rand_bytes", "ares_generate_new_id"]
 
 ENGINE = Engine(name="time", c_srcs=["harness/time_drv.c"],
                 ml_srcs=["ocaml/gen/TimeModel.ml", "ocaml/time_drv.ml"],
-                gen=timegen.gen_c06, wraps=WRAPS, n_quick=1500, n_thorough=15000)
+                gen=timegen.gen_c06, wraps=WRAPS, n_quick=1500, n_thorough=60000)
 
 PROP = Property(
     pid="C06",
